@@ -1,4 +1,5 @@
 import CollectionsC.Proofs.DequeCross
+import CollectionsC.Proofs.DequeD3Behaviour
 /-! # C05 — CC_Deque is an ideal double-ended sequence in every physical layout
 
 Statements and closing proofs only; the per-operation theorems are in `Proofs/Deque*.lean`.
@@ -554,6 +555,22 @@ theorem add_at_front_half_wrong :
     Deque.d3Unwrapped.Inv ∧ inD3 Deque.d3Unwrapped.size (.addAt 9 1) ∧
     (stepM Deque.d3Unwrapped {} (.addAt 9 1)).2.1.abs ≠ (stepS Deque.d3Unwrapped.abs (.addAt 9 1)).2 :=
   ⟨by decide, ⟨by decide, by decide⟩, by decide, by decide, ⟨by decide, by decide⟩, by decide⟩
+
+/-- **finding D3, characterised**: inside the excluded range `add_at` is wrong but fully determined — for
+every layout the call (unless its growth is refused) returns `CC_OK` and either inserts one position late
+(deque had to grow, or its ring wraps before `index`, or it starts at slot 0) or overwrites the element at
+`index` and duplicates its predecessor (contiguous, `first ≠ 0`).  So histories through D3 calls are still
+inside a theorem; they just do not refine `List.insertIdx index`. -/
+theorem add_at_front_half_behaviour (d : Deque) (x i : Nat) (m : Mem) (hi : d.Inv) (hD3 : inD3 d.size (.addAt x i)) :
+    ((stepM d m (.addAt x i)).1.st = some .errAlloc ∧ (stepM d m (.addAt x i)).2.1 = d) ∨
+    ((stepM d m (.addAt x i)).1.st = some .ok ∧
+      ((d.size = d.cap ∨ (d.first + i) % d.cap < d.first ∨ d.first = 0) →
+        (stepM d m (.addAt x i)).2.1.abs = d.abs.insertIdx (i + 1) x) ∧
+      (¬ (d.size = d.cap ∨ (d.first + i) % d.cap < d.first ∨ d.first = 0) →
+        (stepM d m (.addAt x i)).2.1.abs = (d.abs.set i x).insertIdx i (d.abs.getD (i - 1) 0))) := by
+  rcases Deque.addAt_front_half_behaviour d x i m hi hD3 with ⟨a1, a2⟩ | ⟨a1, a2, a3⟩
+  · exact Or.inl ⟨by simp only [stepM, a1], a2⟩
+  · exact Or.inr ⟨by simp only [stepM, a1], a2, a3⟩
 
 /-- the hypotheses are satisfiable by non-trivial states: a wrapped, exactly full deque -/
 example : (Deque.mk 4 4 3 3 [12, 13, 14, 11] .conf).Inv ∧ (Deque.mk 4 4 3 3 [12, 13, 14, 11] .conf).abs = [11, 12, 13, 14] ∧
